@@ -134,6 +134,16 @@ class Spec(object):
                     if got['type'] != was:
                         v.append(('c12-type-changed:%s' % tag, 'consumer %s type %s -> %s by a '
                                   'write below 1.38' % (c, was, got['type'])))
+        # "updated when a later SUCCESSFUL write names a different project, user or type": a
+        # rejected request leaves every consumer record as it was
+        if resp.status >= 400 and pre.consumers != post.consumers:
+            chg = sorted(c for c in set(pre.consumers) | set(post.consumers)
+                         if pre.consumers.get(c) != post.consumers.get(c))
+            v.append(('c12-rejected-changed:%s' % tag, 'request answered %s changed consumer '
+                      'record(s) %s: %s -> %s' % (
+                          resp.status, [c[-2:] for c in chg],
+                          [pre.consumers.get(c) for c in chg],
+                          [post.consumers.get(c) for c in chg])))
         # a consumer that does not exist can be created with consumer_generation null
         if tag in ('PUT@1.28 gen null',):
             c = req['path'].split('/')[2]
